@@ -2,8 +2,11 @@
 
 pub mod common;
 pub mod engine_adp;
+pub mod engine_obs;
 pub mod engine_vec;
 pub mod runners_adp;
+pub mod runners_misc;
+pub mod runners_obs;
 pub mod runners_vec;
 pub mod vops;
 
